@@ -17,7 +17,7 @@ from .c01_create import shape_from_tlc
 from .project import HASH_IDS
 
 SIZES = [0, 1, 23, 24, 255, 256, 65535, 65536, 64, 128, 136, 168, 4095, 4096, 4097, 8192]   # CBOR widths; hash / buffer block sizes
-HEXY = ["cafe.bin", "deadbeef/fw", "0x1234", "abcdefg", "00ff.img", "Fw.BIN", "a b/c d.bin", "fw[1].bin", "fw*?.bin", "~fw$HOME.bin"]
+HEXY = ["cafe.bin", "deadbeef/fw", "0x1234", "abcdefg", "00ff.img", "Fw.BIN", "a b/c d.bin", "fw[1].bin", "fw*?.bin", "~fw$HOME.bin", "ab cd", "12 34 56", "ca fe.bin"]
 
 
 def collect_params(env):
